@@ -305,8 +305,15 @@ def run_property(prop: str, tier: str = "quick", replay: Optional[str] = None, t
 
     exit_code = 0
     lines = []
+    seen_findings: Dict[str, int] = {}
     for f, r in known_hits:
-        lines.append("KNOWN-FINDING: property=%s obligation=%s %s" % (prop, f.get("obligation"), f.get("what", "")))
+        seen_findings[f.get("obligation")] = seen_findings.get(f.get("obligation"), 0) + 1
+    for f, r in known_hits:
+        n = seen_findings.pop(f.get("obligation"), None)
+        if n is None:
+            continue  # one line per listed finding, however many failing obligations it explains
+        lines.append("KNOWN-FINDING: property=%s obligation=%s (%d failing obligation%s) %s" % (
+            prop, f.get("obligation"), n, "" if n == 1 else "s", f.get("what", "")))
     os.makedirs(REPLAY_DIR, exist_ok=True)
     for r, concrete in violations:
         rp = os.path.join(REPLAY_DIR, "%s-%s.json" % (prop, safe(r.name)))
